@@ -31,6 +31,9 @@ pub struct FaultStats {
     pub failed_data: u64,
     pub failed_read: u64,
     pub failed_punch: u64,
+    /// failed requests (reads) on images of the backing chain
+    #[serde(default)]
+    pub failed_backing: u64,
     pub calls_err: u64,
     pub calls_absorbed: u64,
     pub open_failed: u64,
@@ -107,7 +110,7 @@ pub fn run_fault_case(case: &FaultCase) -> FaultRun {
         }
         FaultMode::EnumerateSingles { cap, applied_but_failed } => {
             // fault-free run to learn the number of requests
-            let n = match run_one(&case.seq, None, &mut out) {
+            let (n, n_back) = match run_one(&case.seq, None, &mut out) {
                 Some(n) => n,
                 None => return out,
             };
@@ -132,13 +135,35 @@ pub fn run_fault_case(case: &FaultCase) -> FaultRun {
                     return out;
                 }
             }
+            // the same for every request sent to an image of the backing chain (reads only: C10
+            // owns "no modifying request there"); written twice because applied_but_failed has no
+            // meaning for reads
+            if !*applied_but_failed {
+                let nb = std::cmp::min(n_back as usize, *cap);
+                for k in 0..nb {
+                    let plan = FaultPlan {
+                        back_fail_ordinals: vec![k as u64],
+                        ..FaultPlan::default()
+                    };
+                    run_one(&case.seq, Some(plan.clone()), &mut out);
+                    if let Some(v) = &mut out.violation {
+                        v.msg = format!("[fault plan: fail request #{k} sent to the backing chain] {}", v.msg);
+                        v.tags.push(format!("plan:{}", serde_json::to_string(&plan).unwrap()));
+                        v.tags.push("backing_fault".into());
+                        return out;
+                    }
+                    if out.inconclusive.is_some() {
+                        return out;
+                    }
+                }
+            }
         }
     }
     out
 }
 
-/// One execution; returns the number of requests submitted to the top file
-fn run_one(case: &SeqCase, plan: Option<FaultPlan>, out: &mut FaultRun) -> Option<u64> {
+/// One execution; returns the number of requests submitted to the top file and to the other files
+fn run_one(case: &SeqCase, plan: Option<FaultPlan>, out: &mut FaultRun) -> Option<(u64, u64)> {
     out.stats.runs += 1;
     let world = World::new();
     let layers = match build_layers(&case.layers) {
@@ -186,6 +211,11 @@ fn run_one(case: &SeqCase, plan: Option<FaultPlan>, out: &mut FaultRun) -> Optio
     {
         let w = world.0.borrow();
         let cs = ex.model.cs;
+        for rec in w.log.iter().filter(|r| r.file != 0 && !r.ok) {
+            let _ = rec;
+            out.stats.injected += 1;
+            out.stats.failed_backing += 1;
+        }
         for rec in w.log.iter().filter(|r| r.file == 0 && !r.ok) {
             out.stats.injected += 1;
             match rec.kind {
@@ -223,7 +253,8 @@ fn run_one(case: &SeqCase, plan: Option<FaultPlan>, out: &mut FaultRun) -> Optio
         }
     }
     let n = world.0.borrow().files[0].submitted;
-    Some(n)
+    let nb = world.0.borrow().back_submitted;
+    Some((n, nb))
 }
 
 fn injected(world: &World) -> u64 {
